@@ -39,6 +39,27 @@ def groups():
             raise Refuse("has_defined_labels_for: missing " + need.split("\n")[0])
     if "labels = [value_label for lg in self.__group_dictionary.values() for value_label in lg.value_labels]" not in ast.unparse(find_func(sc, "__init__", "SegmentationClassGroups")):
         raise Refuse("SegmentationClassGroups labels")
+    ini = find_func(sc, "__init__", "SegmentationClassGroups")
+    inis = [ast.unparse(x) for x in ini.body]
+    lab = "labels = [value_label for lg in self.__group_dictionary.values() for value_label in lg.value_labels]"
+    # the label list is taken from the dictionary AFTER it was built (keys that fold to one name keep one group), stored unchanged,
+    # and nothing else assigns self.__labels (besides the empty initialisation before the dictionary is filled)
+    if lab not in inis or "self.__labels = labels" not in inis or inis.index("self.__labels = labels") < inis.index(lab):
+        raise Refuse("SegmentationClassGroups.__init__: self.__labels is not the label list of the built dictionary")
+    built = max(i for i, x in enumerate(inis) if "__group_dictionary" in x and i != inis.index(lab))
+    if built > inis.index(lab):
+        raise Refuse("SegmentationClassGroups.__init__: the dictionary changes after the labels were collected")
+    empty = ("self.__labels = []", "self.__labels: list[int] = []")
+    for x in ini.body:
+        for n in ast.walk(x):
+            if isinstance(n, ast.Attribute) and n.attr.endswith("__labels") and isinstance(n.ctx, ast.Store) \
+                    and ast.unparse(x) not in empty + ("self.__labels = labels",):
+                raise Refuse("SegmentationClassGroups.__init__: another store to self.__labels")
+    prop = ast.unparse(find_func(sc, "labels", "SegmentationClassGroups"))
+    if "return self.__labels" not in prop:
+        raise Refuse("SegmentationClassGroups.labels")
+    out.append("(* self.__labels: the value labels of the groups in the built dictionary, in dictionary order *)")
+    out.append("Definition gen_ctor_labels (d : list (list Z * list Z)) : list Z := flat_map (fun ng => snd ng) d.")
     ev = parse("panoptica/panoptica_evaluator.py")
     e = ast.unparse(find_func(ev, "evaluate", "Panoptica_Evaluator"))
     for need in ["self.__segmentation_class_groups.has_defined_labels_for(processing_pair.prediction_arr, raise_error=True)",
